@@ -38,7 +38,7 @@ CONSTANTS
     NP,          \* filter strings 1..NP (0 stands for the empty string, which is refused)
     BudSet,      \* match budgets explored in histories
     Depth,       \* longest history
-    CacheRule,   \* "none" | "all" | "self" | "direct"
+    CacheRule,   \* "none" | "all" | "self" | "direct" | "newstring"
     AddSet,      \* components filters are added to
     GetSet,      \* components looked up
     PatSets,     \* pattern arguments explored (sets of 0..NP)
@@ -130,6 +130,9 @@ AddFilter(k, pats, mx) ==
                                  [d \in DS |-> IF d \in Targets(k, g) \cup UNION {DirectDeps(t) : t \in Targets(k, g)}
                                                  THEN NoCache ELSE cache[d]]
                             [] CacheRule = "all"  -> [d \in DS |-> NoCache]
+                            [] CacheRule = "newstring" ->      \* flush only when a string is new for its target
+                                 IF \E d \in Targets(k, g) : \E p \in pats : FILTERS[d][p] = 0
+                                   THEN [d \in DS |-> NoCache] ELSE cache
                             [] OTHER              -> cache
               /\ ret' = [op |-> "add", c |-> k, v |-> NoFilters, raised |-> FALSE]
          ELSE /\ ret' = [op |-> "add", c |-> k, v |-> NoFilters, raised |-> TRUE]
@@ -170,6 +173,11 @@ SpecHist == InitHist /\ [][NextHist]_vars
 (* every look-up returns the union of what was registered so far *)
 LookupIsUnionInv == ret.op = "get" /\ Judged(ret.c, g) => Dom(ret.v) = eff[ret.c]
 LookupIsUnion    == [][(ret'.op = "get" /\ Judged(ret'.c, g)) => Dom(ret'.v) = eff'[ret'.c]]_vars
+(* budgets: a look-up returns, per string, the current maximum of the implementation's own table or of its   *)
+(* spec's table - never a budget a later registration has raised (refuted for CacheRule = "newstring")       *)
+LookupBudgetsInv ==
+    (ret.op = "get" /\ Judged(ret.c, g)) =>
+        \A p \in Dom(ret.v) : ret.v[p] \in {FILTERS[Owner(ret.c)][p], FILTERS[PointOf(ret.c)][p]} \ {0}
 (* the table itself always holds the requirement (it is the cache that can lag) *)
 TableIsUnion     == \A c \in DS : Judged(c, g) => Dom(Walk(c)) = eff[c]
 
